@@ -206,6 +206,8 @@ METRIC_KEYS = ["cached-ptr", "cached-srv", "cached-txt", "cached-addr", "cached-
 
 
 def project_line(case_line, raw_line):
+    if is_na(case_line):
+        return project_na(case_line, raw_line)
     case = json.loads(case_line)
     raw = json.loads(raw_line)
     if "error" in raw:
@@ -253,6 +255,8 @@ def project_line(case_line, raw_line):
 
 
 def model_input_line(case_line, raw_line):
+    if is_na(case_line):
+        return "na"
     case = json.loads(case_line)
     raw = json.loads(raw_line)
     its = align(case, raw)
@@ -780,6 +784,88 @@ def gen_special(rng, hid, which):
     raise ValueError(which)
 
 
+# --------------------------------------------------------------------------- model-free family: non-ASCII case
+# Case mapping of non-ASCII letters is outside the Coq model (Base/Bytes.v lower-cases ASCII only; the
+# daemon uses Unicode to_lowercase), so host names with non-ASCII cased letters are kept out of the modelled
+# histories.  This family: browse; packet 1 = PTR + SRV + TXT with the SRV target in one spelling; packet 2
+# (200-900 ms later, i.e. before or after the first follow-up query) = the address record under another
+# spelling of the same name (differing in the case of a non-ASCII letter; controls: ASCII case, identical,
+# lower-case non-ASCII); with expiry: a short address TTL runs out unrefreshed on a timer-exact run.
+# Expected (computed here, the model line is the constant "na", the driver answers "NA ok"): ServiceFound
+# in the iteration of packet 1, exactly one ServiceResolved, in the iteration of packet 2, with that address;
+# with expiry exactly one ServiceRemoved, at the expiry of the address (up to 1 s early); else none.
+
+NA_PAIRS = [("B\u00dcRO-DRUCKER", "b\u00fcro-drucker"), ("CAF\u00c9-printer", "caf\u00e9-printer"),
+            ("\u00c5ngstr\u00f6m-NAS", "\u00e5ngstr\u00f6m-nas"), ("\u0421\u0415\u0420\u0412\u0415\u0420", "\u0441\u0435\u0440\u0432\u0435\u0440")]
+
+
+def is_na(line):
+    return line.startswith('{"id":"na-')
+
+
+def gen_nonascii_host(rng, hid, expiry):
+    up, lo = rng.choice(NA_PAIRS)
+    mode = rng.choice(["nonascii-case", "nonascii-case", "nonascii-case", "ascii-case", "same", "lower-nonascii"])
+    if mode == "nonascii-case":
+        a, b = (up, lo) if rng.random() < 0.5 else (lo, up)
+    elif mode == "ascii-case":
+        a, b = rng.choice([("Host-One", "host-one"), ("host-one", "HOST-ONE")])
+    elif mode == "same":
+        a = b = rng.choice([up, lo, "plainhost"])
+    else:
+        a = b = lo
+    gap = rng.choice([200, 400, 600, 900])
+    ttl = rng.choice([4, 5, 7, 10]) if expiry else 120
+    h = Hist("%s-g%d-t%d-e%d" % (hid, gap, ttl, 1 if expiry else 0), ifaces=[IF_A, IF_A6])
+    inst = inst_name(rng.choice([b"web", b"My Web", b"printer-2"]), TY1)
+    ha = [a.encode(), b"local"]; hb = [b.encode(), b"local"]
+    h.step(0, calls=[h.browse(TY1)])
+    h.step(100, dgrams=[dg(packet([r_ptr(TY1, inst, 4500), r_srv(inst, ha, 8080, 120), r_txt(inst, [(b"a", b"1")], 4500)]), 2, True)])
+    h.run_until(100 + gap)
+    h.step(100 + gap, dgrams=[dg(packet([r_a(hb, "192.168.1.77", ttl)]), 2, True)])
+    h.run_until(100 + gap + (ttl * 1000 + 2500 if expiry else 2500))
+    return h.line()
+
+
+def project_na(case_line, raw_line):
+    case = json.loads(case_line)
+    raw = json.loads(raw_line)
+    if "error" in raw:
+        return "HARNESSERROR " + str(raw["error"])[:100]
+    try:
+        its = align(case, raw)
+    except ValueError as e:
+        return "SKIP" if str(e) == "truncated" else "BADTRACE " + str(e)
+    parts = case["id"].split("-")
+    gap = int([x for x in parts if x.startswith("g")][-1][1:])
+    ttl = int([x for x in parts if x.startswith("t")][-1][1:])
+    exp = [x for x in parts if x.startswith("e")][-1] == "e1"
+    t0 = case["t0"]
+    t1, t2 = t0 + 100, t0 + 100 + gap
+    found, resolved, removed = [], [], []
+    for (now, wake, calls, dgrams, r) in its:
+        for ch, evs in r.get("events", {}).items():
+            for e in evs:
+                if e.get("e") == "ServiceFound":
+                    found.append(now)
+                elif e.get("e") == "ServiceResolved":
+                    resolved.append((now, sorted(a.rsplit("@", 1)[0] for a in e["addrs"])))
+                elif e.get("e") == "ServiceRemoved":
+                    removed.append(now)
+    bad = []
+    if found[:1] != [t1]:
+        bad.append("found=%s" % ",".join(str(x - t0) for x in found))
+    if resolved != [(t2, ["192.168.1.77"])]:
+        bad.append("resolved=%s" % ";".join("%d:%s" % (x - t0, "+".join(a)) for x, a in resolved))
+    if exp:
+        due = t2 + ttl * 1000
+        if len(removed) != 1 or not (due - 1000 <= removed[0] <= due):
+            bad.append("removed=%s(expected %d)" % (",".join(str(x - t0) for x in removed), due - t0))
+    elif removed:
+        bad.append("removed=%s(expected none)" % ",".join(str(x - t0) for x in removed))
+    return "NA ok" if not bad else "NA bad " + " ".join(bad)
+
+
 def gen_long(rng, hid):
     """Default TTLs (120 s / 4500 s), silence until everything is gone: refresh questions at
     80/85/90/95 %, removal at the TTL."""
@@ -828,10 +914,12 @@ def known_from_tags(mon_result, table):
 
 def nontrivial_obs(line, result):
     """A history counts when the daemon produced at least one browse event or follow-up question."""
-    return result.startswith("OBS ") and "#" in result
+    return (result.startswith("OBS ") and "#" in result) or result == "NA ok"
 
 
 def shrink_hist(line, still_bad):
+    if is_na(line):
+        return line            # the expectation of the model-free family is tied to the shape of the history
     import vlib
     return vlib.shrink_history(line, still_bad)
 
